@@ -654,7 +654,7 @@ func replay(l *loaded, disk map[string]string, registry map[string][]string, rep
 		var err error
 		got := false
 		curDir := replayDir
-		for round := 0; round < 8; round++ {
+		for round := 0; round < 64; round++ {
 			cmd := exec.Command("go", args...)
 			cmd.Dir = repoDir
 			cmd.Env = append(os.Environ(), "GOFLAGS=-mod=mod", "GOPROXY=off", "GOSUMDB=off", "GOTOOLCHAIN=local", "VERIF_REPLAY_DIR="+curDir)
@@ -671,7 +671,7 @@ func replay(l *loaded, disk map[string]string, registry map[string][]string, rep
 					got = true
 				}
 			}
-			if err == nil || race {
+			if err == nil {
 				break
 			}
 			// the test process died (a panic in a goroutine of the code under test, a runtime
